@@ -28,6 +28,16 @@ def run(tier):
                           ("MC_RateLimit_shared.cfg", "Variant_SharedBucket")):
             dev[flag] = vlib.tlc_must_fail("RateLimit", cfg, flag, workers=4).violated
         rep.coverage["deviation_counterexamples"] = dev
+        # inductive invariant (Apalache) over UNBOUNDED time and history length: admitted <= burst + refill earned, window count <= max
+        obligations = [("Init", "IndInv", 0), ("IndInv", "IndInv", 1), ("IndInv", "Props", 0)]
+        for init, inv, length in obligations:
+            ok, secs = vlib.apalache("RateLimit_apalache", init, inv, length)
+            if not ok:
+                raise vlib.ToolError("Apalache RateLimit_apalache: %s => %s (length %d) not discharged" % (init, inv, length))
+            vlib.log("Apalache RateLimit_apalache %s => %s length %d: ok, %.1fs" % (init, inv, length, secs))
+        rep.coverage["inductive_invariant"] = {"module": "RateLimit_apalache", "obligations": len(obligations), "discharged": len(obligations),
+                                               "meaning": "one bucket (burst 1..3, max 1..3 per window of 4 ticks): n*W + tokens <= burst*W + refill earned, "
+                                                          "window count <= max, tokens <= burst, for any number of requests and any duration (integers unbounded)"}
 
     # 2. impl -> spec: recorded request histories (sequential and 8 threads)
     trace = os.path.join(wd, "trace.ndjson")
